@@ -111,7 +111,7 @@ Section Unimod.
   Theorem hnf_reach_uinv A s : hnf_reach A (true, true) s -> uinv (length A) (lncols A) A s.
   Proof.
     induction 1 as [|s s' _ IH E|s s' _ IH E].
-    - apply uinv_init.
+    - apply (uinv_init L LW).
     - now apply (hnf_iterate_uinv _ _ A s).
     - now apply (hnf_final_uinv _ _ A s).
   Qed.
@@ -119,7 +119,7 @@ Section Unimod.
   Theorem lll_reach_uinv A s : lll_reach A (true, true) s -> uinv (length A) (lncols A) A s.
   Proof.
     induction 1 as [|s E|s s' _ IH E].
-    - apply uinv_init.
+    - apply (uinv_init L LW).
     - apply (setup_uinv _ _ A _ s (uinv_init L LW A) E).
     - now apply (lll_iterate_uinv _ _ A s).
   Qed.
@@ -177,7 +177,7 @@ Section Unimod.
   Qed.
 
   (* ---------- the flags only erase P / Pinv ---------- *)
-  Definition erase (fl : bool * bool) (s : lll_data) : lll_data :=
+  Definition erase (fl : bool * bool) (s : lll_data (R := R)) : lll_data (R := R) :=
     mk_data (nr s) (nc s) (target s) (if fst fl then tp s else None) (if snd fl then tpinv s else None)
             (det s) (lambda s) (step s).
 
